@@ -14,12 +14,16 @@ func init() {
 		ID: "C21",
 		Explanation: "Decides structural necessary conditions of C21 on every exit path: (RESTORE-DEFER) in withOp.exec the restore loop runs in a Go defer registered before the first assignment, and set() saves the old value before Var.Set and hands the restore function to the collector only on Set's success edge; tmp registers its restore through the frame's defer list; (DEFERS-RUN) in Closure.Call runDefers is called on every path after the body; (REVERSE) both restore loops run from the last registered function down to the first; (BODY-WINS) an exception produced by a restore/deferred function replaces the result only when the body's own result is nil. Which exception wins in nested dynamic cases is not decided.",
 		NotCovered:  "values restored (that save captures the right value), dynamic nesting of tmp/with/defer across calls",
-		Rules:       []string{"RESTORE-DEFER", "DEFERS-RUN", "REVERSE", "BODY-WINS"},
+		Rules:       []string{"RESTORE-DEFER", "DEFERS-RUN", "REVERSE", "BODY-WINS", "FORK-SHARED: the list of deferred/restore functions, shared by the forks of a frame, is appended to only with a mutex held", "OP-READONLY: the exec method of a compiled op (and its closures) never writes a field of the op or an element of a slice/map held in one"},
 		Patterns:    []string{"./pkg/eval"},
-		Run:         func(p *core.Program, r *core.Report) { runC21(p, r); runRCDirect(p, r) },
-		MinCounts:   map[string]int{"RESTORE-DEFER": 4, "DEFERS-RUN": 1, "REVERSE": 2, "BODY-WINS": 2},
+		Run:         func(p *core.Program, r *core.Report) { runC21(p, r); runRCDirect(p, r); runForkShared(p, r, "FORK-SHARED"); runOpReadonly(p, r, "OP-READONLY") },
+		MinCounts:   map[string]int{"OP-READONLY": 20, "FORK-SHARED": 1, "RESTORE-DEFER": 4, "DEFERS-RUN": 1, "REVERSE": 2, "BODY-WINS": 2},
 		Trusted:     trustedBase,
 		Controls: []core.Control{
+			{Name: "revert-fix-defers-unlocked", Rule: "FORK-SHARED", File: "pkg/eval/frame.go", Old: "\tfm.defers.mu.Lock()\n\tdefer fm.defers.mu.Unlock()\n\tfm.defers.fns = append(fm.defers.fns, f)", New: "\tfm.defers.fns = append(fm.defers.fns, f)", Fire: true, Want: "addDefer"},
+			{Name: "op-remembers-last-run", Rule: "OP-READONLY", File: "pkg/eval/compile_effect.go", Old: "\tif op.bg {\n\t\tfm = fm.Fork()\n", New: "\tif op.bg {\n\t\top.source = op.source + \" &\"\n\t\tfm = fm.Fork()\n", Fire: true, Want: "pipelineOp"},
+			{Name: "op-forms-reordered-in-place", Rule: "OP-READONLY", File: "pkg/eval/compile_effect.go", Old: "\tif op.bg {\n\t\tfm = fm.Fork()\n", New: "\tif op.bg {\n\t\tforms := op.forms\n\t\tif len(forms) > 1 {\n\t\t\tforms[0], forms[1] = forms[1], forms[0]\n\t\t}\n\t\tfm = fm.Fork()\n", Fire: true, Want: "pipelineOp"},
+			{Name: "benign-op-copies-forms-before-changing", Rule: "OP-READONLY", File: "pkg/eval/compile_effect.go", Old: "\tif op.bg {\n\t\tfm = fm.Fork()\n", New: "\tif op.bg {\n\t\tforms := append([]*formOp(nil), op.forms...)\n\t\tif len(forms) > 1 {\n\t\t\tforms[0], forms[1] = forms[1], forms[0]\n\t\t}\n\t\tfm = fm.Fork()\n", Fire: false},
 			{Name: "assignment-buffers-its-restores", Rule: "RESTORE-DEFER", File: "pkg/eval/compile_lvalue.go", Old: "\t// Now perform assignment.\n", New: "\tvar buffered []func(*Frame) Exception\n\tif flush := rc; rc != nil {\n\t\trc = func(f func(*Frame) Exception) { buffered = append(buffered, f) }\n\t\tdefer func() {\n\t\t\tif len(buffered) == len(variables) {\n\t\t\t\tfor _, f := range buffered {\n\t\t\t\t\tflush(f)\n\t\t\t\t}\n\t\t\t}\n\t\t}()\n\t}\n\t// Now perform assignment.\n", Fire: true, Want: "unchanged"},
 			{Name: "with-restores-after-body-not-deferred", Rule: "RESTORE-DEFER", File: "pkg/eval/builtin_special.go", Old: "\tdefer func() {\n\t\tfor i := len(restoreFuncs) - 1; i >= 0; i-- {\n\t\t\texc := restoreFuncs[i](fm)\n\t\t\tif exc != nil && opExc == nil {\n\t\t\t\topExc = exc\n\t\t\t}\n\t\t}\n\t}()\n", New: "\trestoreAll := func() {\n\t\tfor i := len(restoreFuncs) - 1; i >= 0; i-- {\n\t\t\texc := restoreFuncs[i](fm)\n\t\t\tif exc != nil && opExc == nil {\n\t\t\t\topExc = exc\n\t\t\t}\n\t\t}\n\t}\n", Edits: [][2]string{{"\tbody := execLambdaOp(fm, op.bodyOp)\n\treturn fm.errorp(op, body.Call(fm.Fork(), NoArgs, NoOpts))\n}\n\n// Finds LHS and RHS", "\tbody := execLambdaOp(fm, op.bodyOp)\n\topExc = fm.errorp(op, body.Call(fm.Fork(), NoArgs, NoOpts))\n\trestoreAll()\n\treturn opExc\n}\n\n// Finds LHS and RHS"}}, Fire: true, Quick: true},
 			{Name: "restore-collected-before-set", Rule: "RESTORE-DEFER", File: "pkg/eval/compile_lvalue.go", Old: "\terr := variable.Set(value)\n\tif err != nil {\n\t\treturn fm.errorp(r, err)\n\t}\n\tif rc != nil {\n\t\trc(restore)\n\t}\n\treturn nil", New: "\tif rc != nil {\n\t\trc(restore)\n\t}\n\terr := variable.Set(value)\n\tif err != nil {\n\t\treturn fm.errorp(r, err)\n\t}\n\treturn nil", Fire: true},
